@@ -250,6 +250,117 @@ fn execute(root: &Arc<GameState>, progs: &[Prog], concurrent: bool) -> Vec<(u64,
     handles.into_iter().map(|h| h.join().unwrap_or((0xdead, 0))).collect()
 }
 
+
+// ---------------------------------------------------------------------------------------------
+// Exchange scenario: several threads play *different* recurrence-heavy lines from a common root in
+// lock-step (one turn per round) and look at each other's states after every round. The data flow is
+// fixed by barriers, so the same scenario can be run on one thread; anything that is remembered per
+// thread about "the last history looked at" (ids, caches) is then exercised with histories of equal
+// length but different content.
+// ---------------------------------------------------------------------------------------------
+
+fn inverse_of(a: &Action) -> Option<Action> {
+    use arimaa_verif::model as m;
+    match to_maction(a) {
+        m::MAction::Step { from, dir } => m::neighbour(from, dir).map(|to| to_action(m::MAction::Step { from: to, dir: m::opposite(dir) })),
+        _ => None,
+    }
+}
+
+/// Plays one full turn (until the side to move changes); prefers taking back the steps of this side's
+/// previous turn, passes early, otherwise follows the selectors.
+fn play_turn(g: &GameState, sels: &[u16], pos: &mut usize, prev_own: &mut Vec<Action>, t: &mut Transcript) -> Option<GameState> {
+    let side = g.is_p1_turn_to_move();
+    let mut cur = g.clone();
+    let mut made: Vec<Action> = vec![];
+    for _ in 0..5 {
+        if cur.is_terminal().is_some() {
+            return None;
+        }
+        let va = cur.valid_actions();
+        t.put_str(&actions_text(&va));
+        if va.is_empty() {
+            return None;
+        }
+        let sel = sels[*pos % sels.len()];
+        *pos += 1;
+        let undo: Vec<Action> = va.iter().copied().filter(|a| prev_own.iter().any(|p| inverse_of(p) == Some(*a))).collect();
+        let a = if !made.is_empty() && va.contains(&Action::Pass) && sel % 4 != 0 {
+            Action::Pass
+        } else if !undo.is_empty() && sel % 8 != 7 {
+            undo[(sel as usize / 8) % undo.len()]
+        } else {
+            va[(sel as usize * va.len()) >> 16]
+        };
+        made.push(a);
+        cur = cur.take_action(&a);
+        if cur.is_p1_turn_to_move() != side {
+            break;
+        }
+    }
+    *prev_own = made;
+    Some(cur)
+}
+
+fn exchange(root: &Arc<GameState>, sels: &[Vec<u16>], rounds: usize, concurrent: bool) -> Vec<(u64, u64)> {
+    use std::sync::Mutex;
+    let n = sels.len();
+    if !concurrent {
+        let mut states: Vec<GameState> = (0..n).map(|_| (**root).clone()).collect();
+        let mut ts: Vec<Transcript> = (0..n).map(|_| Transcript::default()).collect();
+        let mut pos = vec![0usize; n];
+        let mut prevs: Vec<[Vec<Action>; 2]> = (0..n).map(|_| [vec![], vec![]]).collect();
+        for _ in 0..rounds {
+            for i in 0..n {
+                let side = states[i].is_p1_turn_to_move() as usize;
+                let mut pv = std::mem::take(&mut prevs[i][side]);
+                states[i] = play_turn(&states[i], &sels[i], &mut pos[i], &mut pv, &mut ts[i]).unwrap_or_else(|| (**root).clone());
+                prevs[i][side] = pv;
+            }
+            let snapshot: Vec<GameState> = states.clone();
+            for i in 0..n {
+                let other = &snapshot[(i + n - 1) % n];
+                // two plies deep: the repetition lookups happen in the middle of the other side's turn
+                expand(other, 2, &mut ts[i]);
+                observe(&states[i], &mut ts[i]);
+            }
+        }
+        return ts.into_iter().map(|t| (t.h, t.items)).collect();
+    }
+    let barrier = Arc::new(Barrier::new(n));
+    let board: Arc<Mutex<Vec<Option<GameState>>>> = Arc::new(Mutex::new(vec![None; n]));
+    let hs: Vec<_> = (0..n)
+        .map(|i| {
+            let root = root.clone();
+            let barrier = barrier.clone();
+            let board = board.clone();
+            let my = sels[i].clone();
+            std::thread::spawn(move || {
+                let mut t = Transcript::default();
+                let mut state = (*root).clone();
+                let mut pos = 0usize;
+                let mut prevs: [Vec<Action>; 2] = [vec![], vec![]];
+                for _ in 0..rounds {
+                    let side = state.is_p1_turn_to_move() as usize;
+                    let mut pv = std::mem::take(&mut prevs[side]);
+                    state = play_turn(&state, &my, &mut pos, &mut pv, &mut t).unwrap_or_else(|| (*root).clone());
+                    prevs[side] = pv;
+                    board.lock().unwrap()[i] = Some(state.clone());
+                    barrier.wait();
+                    let other = board.lock().unwrap()[(i + n - 1) % n].clone();
+                    barrier.wait();
+                    if let Some(o) = other {
+                        expand(&o, 2, &mut t);
+                    }
+                    observe(&state, &mut t);
+                }
+                (t.h, t.items)
+            })
+        })
+        .collect();
+    hs.into_iter().map(|h| h.join().unwrap_or((0xdead, 0))).collect()
+}
+
 fn check_case(c: &ConcCase, st: &mut Stats) -> Check {
     let actions = match root_actions(c) {
         Some(a) => a,
@@ -278,6 +389,31 @@ fn check_case(c: &ConcCase, st: &mut Stats) -> Check {
     for con in cons.iter() {
         for (i, (a, b)) in seq.iter().zip(con.iter()).enumerate() {
             ensure!(a == b, "C18:transcript", "thread {} of {}: concurrent transcript (hash {:#x}, {} items) differs from the sequential run (hash {:#x}, {} items)", i, seq.len(), b.0, b.1, a.0, a.1);
+        }
+    }
+    // exchange scenario on the same root, selectors taken from the programs' walks
+    if root.is_play_phase() && root.is_terminal().is_none() {
+        let sels: Vec<Vec<u16>> = c
+            .progs
+            .iter()
+            .take(4)
+            .enumerate()
+            .map(|(i, p)| {
+                let mut v: Vec<u16> = p.phase1.iter().chain(p.phase2.iter()).flat_map(|o| if let Op::Walk(w) = o { w.clone() } else { vec![] }).collect();
+                v.push(7919u16.wrapping_mul(i as u16 + 1));
+                v.push(c.game.aux as u16 ^ (i as u16 * 977));
+                v
+            })
+            .collect();
+        if sels.len() >= 2 {
+            let xr = mk().unwrap();
+            let xc = guard(|| exchange(&xr, &sels, 14, true)).map_err(|p| Fail::new("C18:concurrent_panic", p))?;
+            let xs_root = mk().unwrap();
+            let xs = guard(|| exchange(&xs_root, &sels, 14, false)).map_err(|p| Fail::new("C18:sequential_panic", p))?;
+            for (i, (a, b)) in xs.iter().zip(xc.iter()).enumerate() {
+                ensure!(a == b, "C18:transcript", "exchange scenario, thread {} of {}: playing different lines from one root on several threads and looking at each other's states gave a transcript (hash {:#x}, {} items) that differs from the same scenario on one thread (hash {:#x}, {} items)", i, xs.len(), b.0, b.1, a.0, a.1);
+            }
+            st.bump("exchange_scenarios");
         }
     }
     let expanders = c.progs.iter().filter(|p| matches!(p.phase1.first(), Some(Op::Expand(_)) | Some(Op::Query) | Some(Op::CloneDrop(..)) | Some(Op::Walk(_)))).count();
